@@ -75,6 +75,7 @@ pub fn explore(
     let mut last_depth = 0;
     let mut depth_truncated = false;
     while let Some(mut node) = q.pop_front() {
+        crate::watchdog::beat();
         if node.depth as usize > last_depth {
             st.depth_completed = last_depth;
             last_depth = node.depth as usize;
@@ -156,6 +157,7 @@ pub fn explore_pair(
     let mut last_depth = 0;
     let mut depth_truncated = false;
     while let Some(mut node) = q.pop_front() {
+        crate::watchdog::beat();
         if node.depth as usize > last_depth {
             st.depth_completed = last_depth;
             last_depth = node.depth as usize;
